@@ -28,6 +28,7 @@ K_DOTS = "template-formats-to-dot-or-dotdot-escapes-job-dir"
 K_PREFIX = "text-before-file-field-dropped"
 K_FMTDOT = "format-spec-dot-taken-for-template-extension"
 K_SPEC = "non-float-format-spec-left-unformatted"
+K_DOTFILE = "dotfile-input-named-after-parent-directory"
 
 FILES = ["data", "data.txt", "data.tar.gz"]
 STRS = ["abc", "ab.cd", "a/b", "..", ".", ""]
@@ -65,6 +66,13 @@ TEMPLATES = [
     ("{l}_{s}", ("l", "s")),
 ]
 POOLS = {"f": FILES, "s": STRS, "n": INTS, "x": FLOATS, "l": LISTS}
+POOLS_THOROUGH = {
+    "f": FILES + ["other.nii.gz", ".hidden"],
+    "s": STRS + ["abc.tar.gz", "../x"],
+    "n": INTS + [-1],
+    "x": FLOATS + [2.0],
+    "l": LISTS + [["a.txt", "b.txt"]],
+}
 OUT_MODES = ["default", "true", "explicit-abs", "explicit-rel"]
 
 
@@ -88,11 +96,11 @@ def build(template, keep, otype):
     return shell.define("cmd", inputs=inputs, outputs={"out": shell.outarg(type=t, path_template=template, keep_extension=keep, argstr="-o", help="")})
 
 
-def cases():
+def cases(pools=POOLS):
     import itertools
 
     for template, refs in TEMPLATES:
-        for combo in itertools.product(*[POOLS[r] for r in refs]):
+        for combo in itertools.product(*[pools[r] for r in refs]):
             vals = dict(zip(refs, combo))
             for keep in (True, False):
                 for otype in otypes_for(refs):
@@ -221,7 +229,8 @@ def problems(c, o):
         if names:
             name = os.path.relpath(p, cd)
             if name not in names:
-                bad.append(("name", classify_name(c, e, name), f"resolved name {name!r} is not the formatted template (accepted: {sorted(names)})"))
+                for klass in classify_name(c, e, name) or [None]:
+                    bad.append(("name", klass, f"resolved name {name!r} is not the formatted template (accepted: {sorted(names)})"))
     rel1 = [os.path.relpath(p, cd) for p in o["paths"]]
     rel2 = [os.path.relpath(p, o["cache_dir2"]) for p in o["paths2"]]
     if rel1 != rel2 or o["paths"] != o["paths_again"]:
@@ -230,7 +239,8 @@ def problems(c, o):
     for p in o["paths"]:
         if p not in o["argv"] and not whole_list_in_name:
             bad.append(("argv", None, f"argv {o['argv']} does not carry the resolved path {p}"))
-    if "collected" in o and o["collected"] != o["paths"]:
+    uniq = lambda xs: list(dict.fromkeys(xs))  # noqa: E731  (two list elements may format to the same name)
+    if "collected" in o and uniq(o["collected"]) != uniq(o["paths"]):
         bad.append(("collected", None, f"collected output {o['collected']} differs from the path given to the command {o['paths']}"))
     if "collected_error" in o and all(S.strictly_inside(p, cd) for p in o["paths"]):
         bad.append(("collected", None, f"collecting the output raised {o['collected_error']}"))
@@ -238,28 +248,37 @@ def problems(c, o):
 
 
 def classify_name(c, elem, name):
-    """narrow class predicates for a wrong file name"""
+    """narrow class predicates for a wrong file name -> list of classes ([] = unclassified)"""
     t, refs = c["template"], oracle_refs(c, elem)
     # a field reference with a format spec other than the float form `{x:.1f}` (e.g. `{n:03d}`) and the
     # template text comes back literally, braces included
     specs = re.findall(r"{\w+:([^{}]*)}", t)
     if specs and any(not re.fullmatch(r"[0-9.]+f", sp) for sp in specs) and name == t.rsplit("/", 1)[-1]:
-        return K_SPEC
-    if "f" in refs and "{f}" in t:
-        last = t.rsplit("/", 1)[-1]
-        before = last[: last.index("{f}")] if "{f}" in last else ""
-        if before:
-            # everything in front of the file field (literal text or another field) is lost: the name is
-            # what the template WITHOUT that prefix gives
-            t2 = t[: len(t) - len(last)] + last[len(before) :]
-            if name in S.template_names(t2, refs, c["keep"]):
-                return K_PREFIX
-        # the only dots of the template sit inside format specs ({x:.1f}); keep_extension=True, yet the
-        # input file's extension is dropped as if the template had its own
-        literal = re.sub(r"{[^{}]*}", "", t)
-        if c["keep"] and "." not in literal and "." in t and name in S.template_names(t, refs, False):
-            return K_FMTDOT
-    return None
+        return [K_SPEC]
+    if not ("f" in refs and "{f}" in t):
+        return []
+    pre = []
+    if refs["f"][1].startswith("."):
+        # a file called '.hidden' is split into name '' + extension 'hidden'; the empty name makes the
+        # input's PARENT DIRECTORY name (the harness keeps input files in a directory called 'in') the stem
+        refs = dict(refs, f=("file", "in" + refs["f"][1]))
+        pre = [K_DOTFILE]
+        if name in S.template_names(t, refs, c["keep"]):
+            return pre
+    last = t.rsplit("/", 1)[-1]
+    before = last[: last.index("{f}")] if "{f}" in last else ""
+    if before:
+        # everything in front of the file field (literal text or another field) is lost: the name is
+        # what the template WITHOUT that prefix gives
+        t2 = t[: len(t) - len(last)] + last[len(before) :]
+        if name in S.template_names(t2, refs, c["keep"]):
+            return pre + [K_PREFIX]
+    # the only dots of the template sit inside format specs ({x:.1f}); keep_extension=True, yet the
+    # input file's extension is dropped as if the template had its own
+    literal = re.sub(r"{[^{}]*}", "", t)
+    if c["keep"] and "." not in literal and "." in t and name in S.template_names(t, refs, False):
+        return pre + [K_FMTDOT]
+    return []
 
 
 def _worker(chunk):
@@ -295,10 +314,11 @@ def run(ctx):
         "independently built job on another cache root, name = formatted template with the extension kept/dropped as declared (all readings), "
         "explicit paths carried unchanged."
     )
-    allc = list(cases())
+    pools = ctx.pick(POOLS, POOLS_THOROUGH)
+    allc = list(cases(pools))
     dom = ctx.domain(
         "path-templates",
-        bound=f"{len(TEMPLATES)} templates ({', '.join(t for t, _ in TEMPLATES)}) x file names {FILES} x strings {STRS} x ints {INTS} x floats {FLOATS} x lists {LISTS} "
+        bound=f"{len(TEMPLATES)} templates ({', '.join(t for t, _ in TEMPLATES)}) x file names {pools['f']} x strings {pools['s']} x ints {pools['n']} x floats {pools['x']} x lists {pools['l']} "
         f"x keep_extension x output type (File, File|None, MultiOutputFile for list references) x out in {OUT_MODES}: {len(allc)} cases",
         rule="one case per (template, keep_extension, type, values, out mode); non-trivial = the template references an input or an explicit path is supplied",
         exhaustive=True,
